@@ -293,6 +293,10 @@ class Walker:
                     if c == Fraction(1, 2):
                         return self.sqrt(a)
                 return Rat.atom('(%s ** %s)' % (self.canon(a), self.canon(b)))
+            if isinstance(n.op, (ast.Mod, ast.FloorDiv)) and a.isconst() and b.isconst() and b.constval() != 0:
+                import math
+                q = math.floor(a.constval() / b.constval())
+                return Rat.const(q) if isinstance(n.op, ast.FloorDiv) else Rat.const(a.constval() - q * b.constval())
             if isinstance(n.op, ast.FloorDiv):
                 return Rat.atom('floor(%s)' % self.canon(a / b)) if not b.n.iszero() else Rat.atom('(%s // 0)' % self.canon(a))
             if isinstance(n.op, ast.Mod):
@@ -326,7 +330,10 @@ class Walker:
                 c = idx.constval()
                 if c.denominator == 1 and -len(base) <= c < len(base):
                     return base[int(c)]
-            return Rat.atom('%s[%s]' % (self.base_text(base), self.idx_text(idx)))
+            sname = '%s[%s]' % (self.base_text(base), self.idx_text(idx))
+            if sname in st.env:
+                return st.env[sname]
+            return Rat.atom(sname)
         if isinstance(n, ast.Call):
             return self.call(n, st)
         if isinstance(n, ast.JoinedStr):
@@ -718,6 +725,12 @@ class Walker:
             base = self.ex(target.value, st)
             idx = self.index(target.slice, st)
             self.seq += 1
+            if isinstance(base, Rat):
+                bt = self.base_text(base)
+                for k in [k for k in st.env if isinstance(k, str) and k.startswith(bt + '[')]:
+                    del st.env[k]
+                if aug is None:
+                    st.env['%s[%s]' % (bt, self.idx_text(idx))] = value
             st.events.append(Event('store', name=self.base_text(base), index=idx, value=value,
                                    node=node, conds=tuple(st.conds), loops=tuple(st.loops), aug=aug,
                                    recv=base, seq=self.seq))
@@ -965,8 +978,8 @@ class Walker:
                     assigned.add(n.id)
         pre_env = dict(st.env)
         info['pre_env'] = pre_env
-        if any(isinstance(n, ast.Attribute) and isinstance(n.ctx, ast.Store) for b in s.body for n in ast.walk(b)):
-            for k in [k for k in st.env if '.' in k]:
+        if any(isinstance(n, (ast.Attribute, ast.Subscript)) and isinstance(n.ctx, ast.Store) for b in s.body for n in ast.walk(b)):
+            for k in [k for k in st.env if isinstance(k, str) and ('.' in k or '[' in k) and not k.startswith('__')]:
                 del st.env[k]
         # havoc everything the loop may assign
         for name in sorted(assigned):
